@@ -65,6 +65,7 @@ int main(int argc, char **argv) {
         for (int res = 3; res <= 15; res++) {
             CellVec cv = {0};
             cv_pentagon_strata(&cv, res, quick ? 2 : 4); cv_seam_cells(&cv, res, quick ? 12 : 150); cv_random_cells(&cv, res, quick ? 15 : 150);
+            cv_polar_cells(&cv, res); cv_antimeridian_cells(&cv, res, quick ? 4 : 24);
             for (int64_t i = 0; i < cv.n; i++) ev_boundary(cv.v[i]);
             cv_free(&cv);
             /* dense walk along the icosahedron edges: only the cell's own boundary */
